@@ -2,6 +2,9 @@
 (* Model configurations of Pipeline.tla (function-valued constants cannot be written in a .cfg). *)
 EXTENDS Pipeline
 
+RECURSIVE MCClosure(_)
+MCClosure(S) == LET T == S \cup UNION {Dep[p] : p \in S} IN IF T = S THEN S ELSE MCClosure(T)
+
 P2 == {"p", "q"}
 P3 == {"p", "q", "r"}
 O2 == <<"p", "q">>
